@@ -15,6 +15,10 @@ type gen struct {
 	hostile bool
 }
 
+// words the Sysl lexer does not take as names (case-insensitively)
+var reserved = map[string]bool{"as": true, "any": true, "alt": true, "if": true, "int": true, "set": true, "for": true, "one": true,
+	"true": true, "else": true, "each": true, "loop": true, "date": true, "bool": true, "text": true, "until": true, "while": true}
+
 var prims = []string{"int", "string", "date", "float", "bool", "decimal", "datetime", "int", "string", "string"}
 
 func (g *gen) name(prefixes string) string {
@@ -26,6 +30,9 @@ func (g *gen) name(prefixes string) string {
 			b = append(b, tail[g.r.Intn(len(tail))])
 		}
 		s := string(b)
+		if reserved[strings.ToLower(s)] {
+			continue
+		}
 		if !g.used[strings.ToLower(s)] {
 			g.used[strings.ToLower(s)] = true
 			return s
@@ -75,11 +82,11 @@ func (g *gen) refTarget(m *Model, rank int, not *[2]string) *[2]string {
 }
 
 func (g *gen) newTable(m *Model, rank, file int) Table {
-	t := Table{Name: g.name("TtUQz"), File: file, Rank: rank}
+	t := Table{Name: g.name("TtUQzW"), File: file, Rank: rank}
 	n := 1 + g.r.Intn(5)
 	npk := []int{0, 1, 1, 1, 1, 2, 3}[g.r.Intn(7)]
 	for i := 0; i < n; i++ {
-		c := g.primCol(g.name("ckxAZ"))
+		c := g.primCol(g.name("ckxZ"))
 		if g.r.Chance(2, 5) {
 			if ref := g.refTarget(m, rank, nil); ref != nil {
 				c = Col{Name: c.Name, Ref: ref, Opt: c.Opt}
@@ -143,7 +150,16 @@ func (g *gen) model(maxTables int) *Model {
 		m.Tables[i], m.Tables[j] = m.Tables[j], m.Tables[i]
 	}
 	nf := []int{1, 1, 2, 2, 3}[g.r.Intn(5)]
-	g.layout(m, nf, nf > 1 && g.r.Chance(1, 2))
+	align := nf > 1 && g.r.Chance(1, 2)
+	g.layout(m, nf, align)
+	if align && g.r.Chance(1, 3) {
+		// re-open one table in another file (its later columns are declared there)
+		t := &m.Tables[g.r.Intn(len(m.Tables))]
+		if len(t.Cols) > 1 {
+			t.Part2File = (t.File + 1 + g.r.Intn(nf-1)) % nf
+			t.Part2From = 1 + g.r.Intn(len(t.Cols)-1)
+		}
+	}
 	return m
 }
 
@@ -218,7 +234,7 @@ func (g *gen) edit(m *Model, kind string) bool {
 	}
 	switch kind {
 	case "add-column":
-		c := g.primCol(g.name("ckxAZ"))
+		c := g.primCol(g.name("ckxZ"))
 		if g.r.Chance(1, 3) {
 			if ref := g.refTarget(m, t.Rank, nil); ref != nil {
 				c = Col{Name: c.Name, Ref: ref}
@@ -352,9 +368,9 @@ func (g *gen) evolve(m *Model, maxEdits int, only string) (*Model, []string) {
 
 func generate(r *runner) {
 	c := r.c
-	nCreate, nPair, nChain, maxT := 350, 450, 120, 7
+	nCreate, nPair, nChain, maxT := 250, 360, 80, 7
 	if c.Thorough() {
-		nCreate, nPair, nChain, maxT = 4000, 6000, 1500, 9
+		nCreate, nPair, nChain, maxT = 2000, 3000, 700, 9
 	}
 	if c.Search {
 		nCreate, nPair, nChain = nCreate*3, nPair*3, nChain*3
@@ -413,6 +429,11 @@ func fixedShapes(r *runner) {
 		{Name: "T3", File: 0, Rank: 2, Cols: []Col{pk(ref("x", "T2", "id")), ref("y", "T1", "id")}},
 	}}
 	r.run("create", []*Model{two}, "two files, T1 and T2 start on the same line")
+	split := &Model{NFiles: 2, Pad: []int{0, 1}, Gap: []int{0, 0}, Tables: []Table{
+		{Name: "S1", File: 0, Rank: 0, Part2File: 1, Part2From: 2, Cols: []Col{pk(p("a", "int")), p("b", "string"), p("c", "date"), pk(p("d", "int"))}},
+		{Name: "S2", File: 0, Rank: 1, Cols: []Col{pk(ref("x", "S1", "a")), ref("y", "S1", "d")}},
+	}}
+	r.run("create", []*Model{split}, "table S1 re-opened in a second file, columns a/c and b/d on equal lines")
 	base := &Model{NFiles: 1, Pad: []int{0}, Gap: []int{0, 0, 0}, Tables: []Table{
 		{Name: "P", Rank: 0, Cols: []Col{pk(p("id", "int")), p("n", "string")}},
 		{Name: "Q", Rank: 1, Cols: []Col{pk(p("id", "string")), p("m", "int")}},
